@@ -215,6 +215,10 @@ where
 
     // Keep on running forever until we receive the instruction to stop.
     while keep_running {
+        #[cfg(clockbound_verif)]
+        if crate::verif::fault("writer", "writer.before_recv") {
+            return;
+        }
         match ctx.mbox.recv() {
             Ok(Message::ClockErrorBoundData((tracking, phc_error_bound, as_of))) => {
                 // TODO use phc_error_bound here
@@ -232,10 +236,18 @@ where
             }
             Ok(Message::ThreadAbort) => {
                 info!("Received message to stop shm writer thread");
+                #[cfg(clockbound_verif)]
+                crate::verif::event("writer", "WRecvAbort", "");
                 keep_running = false;
             }
             Ok(msg) => info!("Received message without handler {:?}", msg),
             Err(e) => error!("Error reading from MPSC channel: {:?}", e),
+        }
+        #[cfg(clockbound_verif)]
+        crate::verif::event("writer", "WHandled", "");
+        #[cfg(clockbound_verif)]
+        if crate::verif::fault("writer", "writer.after_handle") {
+            return;
         }
     }
 }
@@ -243,6 +255,12 @@ where
 /// Entry point to this thread.
 pub fn run(ctx: Context, max_drift_ppb: u32) {
     info!("Starting shared memory writer thread");
+    #[cfg(clockbound_verif)]
+    crate::verif::event("writer", "Start", "");
+    #[cfg(clockbound_verif)]
+    if crate::verif::fault("writer", "writer.start") {
+        return;
+    }
     // Create a writer to update the clock error bound shared memory segment
     let writer = match ShmWriter::new(Path::new(CLOCKBOUND_SHM_DEFAULT_PATH)) {
         Ok(writer) => {
@@ -258,6 +276,10 @@ pub fn run(ctx: Context, max_drift_ppb: u32) {
         }
     };
 
+    #[cfg(clockbound_verif)]
+    if crate::verif::fault("writer", "writer.after_new") {
+        return;
+    }
     // Pack the writer into the updater structure.
     let updater = ShmUpdater::new(writer, max_drift_ppb);
     process_messages(ctx, updater)
@@ -462,5 +484,48 @@ mod t_shm_writer {
         );
         let ceb = storage.borrow_mut().pop_front().unwrap();
         assert_eq!(ceb, expected);
+    }
+}
+
+/// Verification-only access to the private updater (compiled only with `--cfg clockbound_verif`).
+#[cfg(clockbound_verif)]
+pub mod verif_api {
+    use super::*;
+
+    /// Adapter so that any boxed writer can be handed to the private `ShmUpdater`.
+    pub struct DynWriter(pub Box<dyn ShmWrite + Send>);
+
+    impl ShmWrite for DynWriter {
+        fn write(&mut self, ceb: &ClockErrorBound) {
+            self.0.write(ceb)
+        }
+    }
+
+    /// The private `extract_bound_from_tracking`; status as 0 Unknown / 1 Synchronized / 2 FreeRunning.
+    pub fn bound_and_status(tracking: Tracking) -> (i64, u8) {
+        let (bound, status) = extract_bound_from_tracking(tracking);
+        (bound, status as u8)
+    }
+
+    /// The private `ShmUpdater`, driven one message at a time.
+    pub struct Updater(ShmUpdater<DynWriter>);
+
+    impl Updater {
+        pub fn new(writer: Box<dyn ShmWrite + Send>, max_drift_ppb: u32) -> Self {
+            Updater(ShmUpdater::new(DynWriter(writer), max_drift_ppb))
+        }
+
+        pub fn clock_update(&mut self, tracking: Tracking, phc_error_bound: i64, as_of: libc::timespec) {
+            self.0.process_clock_update(tracking, phc_error_bound, as_of)
+        }
+
+        pub fn missing_update(&mut self, within_grace_period: bool) {
+            self.0.process_missing_clock_update(within_grace_period)
+        }
+    }
+
+    /// The private `process_messages` loop over a caller-supplied writer.
+    pub fn process_messages_with(ctx: Context, writer: Box<dyn ShmWrite + Send>, max_drift_ppb: u32) {
+        process_messages(ctx, ShmUpdater::new(DynWriter(writer), max_drift_ppb))
     }
 }
